@@ -11,6 +11,10 @@ Mathlib-free.
 namespace LexVerif.Proof.RoundNE
 open LexVerif.Spec
 
+/-- `m · base^e` (`e : Int`) as a fraction `(num, den)` -/
+def powFrac (base : Nat) (e : Int) (m : Nat) : Nat × Nat :=
+  if e ≥ 0 then (m * base ^ e.toNat, 1) else (m, base ^ (-e).toNat)
+
 /-- the encoding `k·2^(p−1) + q0`, clamped at infinity -/
 def encode (f : Fmt) (k q0 : Nat) : Nat :=
   if f.infBits ≤ k * 2 ^ (f.p - 1) + q0 then f.infBits else k * 2 ^ (f.p - 1) + q0
